@@ -689,3 +689,6 @@ func init() {
 		replayers["history:"+p] = replayHistory(p)
 	}
 }
+
+// realDrivers returns fresh drivers for both clients.
+func realDrivers() []drv.Real { return []drv.Real{drv.NewV1(), drv.NewV2()} }
